@@ -256,10 +256,15 @@ pub fn run_case(case: &Case) -> (Vec<(String, String)>, Info) {
                         1 => other.unwrap_or([8; 32]),
                         _ => [7; 32],
                     };
-                    let ver = match version % 3 {
+                    let ver = match version % 8 {
                         0 => Version::new(1, 2, 3),
                         1 => Version::new(0, 0, 0),
-                        _ => Version::new(9, 9, 9),
+                        2 => Version::new(9, 9, 9),
+                        3 => Version::new(1, 2, 0xffff), // same release line, largest patch level
+                        4 => Version::new(1, 0, 0x0203), // another minor version whose patch level has 2 in its high byte
+                        5 => Version::new(1, 3, 3),      // next minor version
+                        6 => Version::new(0, 2, 3),      // other major version
+                        _ => Version::new(1, 2, 0x0100),
                     };
                     let victim = honest_key[1 - ni].0;
                     let r = HandshakeResponse {
@@ -341,10 +346,16 @@ pub fn run_case(case: &Case) -> (Vec<(String, String)>, Info) {
                     }
                 };
                 // the message just delivered must be a response carrying K's signature over a fresh challenge of this connection
+                let mut incompatible: Option<String> = None;
                 let proof = match &delivered {
                     Some((dn, di, buf)) if *dn == ni && *di == idx => match Message::deserialize(buf.clone()) {
                         Ok(Message::HandshakeResponse(r)) => {
                             let cands = issued.get(&(ni, idx)).cloned().unwrap_or_default();
+                            let cv = r.core_version;
+                            if !(cv.major == 1 && cv.minor == 2) {
+                                // the honest nodes of this world run core version 1.2.3: anything outside 1.2.x is incompatible
+                                incompatible = Some(format!("{}.{}.{}", cv.major, cv.minor, cv.patch));
+                            }
                             cands.into_iter().find(|c| !accepted.contains(&(ni, idx, *c)) && r.public_key == k && verify(c, &r.signature, &k))
                         }
                         _ => None,
@@ -359,6 +370,12 @@ pub fn run_case(case: &Case) -> (Vec<(String, String)>, Info) {
                         format!("step {step} ({opname}): node {ni} marked connection {idx} as connected under its own key: the signature it accepted is one it produced itself"),
                     ));
                     continue;
+                }
+                if let (Some(_), Some(ver)) = (&proof, &incompatible) {
+                    v.push((
+                        format!("C17|connected_with_incompatible_version|op={opname}"),
+                        format!("step {step} ({opname}): node {ni} (core version 1.2.3) marked connection {idx} as connected on a response that states core version {ver}"),
+                    ));
                 }
                 match proof {
                     Some(c) => {
@@ -449,7 +466,7 @@ pub fn arb_op() -> impl Strategy<Value = Op> {
         1 => (0u8..2).prop_map(Op::Drop),
         1 => (0u8..2).prop_map(Op::Reorder),
         4 => (any::<u8>(), 0u8..5).prop_map(|(k, e)| Op::Replay { k, e }),
-        4 => (0u8..5, 0u8..3, prop_oneof![4 => Just(0u8), 1 => Just(1u8), 1 => Just(2u8)], 0u8..2).prop_map(|(e, over, version, claim)| Op::AttackerResponse { e, over, version, claim }),
+        4 => (0u8..5, 0u8..3, prop_oneof![4 => Just(0u8), 3 => 1u8..8], 0u8..2).prop_map(|(e, over, version, claim)| Op::AttackerResponse { e, over, version, claim }),
         2 => (0u8..5, 0u8..2).prop_map(|(e, which)| Op::AttackerChallenge { e, which }),
         1 => (0u8..5, 0u8..2).prop_map(|(e, tag)| Op::AttackerOther { e, tag }),
         2 => (0u8..4).prop_map(Op::Disconnect),
@@ -457,7 +474,7 @@ pub fn arb_op() -> impl Strategy<Value = Op> {
 }
 
 pub fn run(ctx: &mut Ctx) {
-    ctx.rule = "two honest nodes built from the real routing threads (A connects to B) and an attacker with three connections of its own (two to B, one to A) who also sits on the honest link; generated sequences of 4..14 operations: connect, deliver in order, drop, reorder, replay any observed message to any endpoint (incl. redirect across connections and reflection), attacker responses signed with its own key over the right / another connection's / a random challenge with ok / unset / incompatible version claiming its own or the honest peer's key, attacker challenges (random, or another endpoint's challenge: signing-oracle attempt), unsolicited traffic, dropped connections that are dialled again under the same connection index (plus two directed families: the honest link drops at every point of the handshake, is re-dialled, and every message seen so far is replayed to either end; the attacker reflects a node's own first messages back to it on the attacker's connection; the attacker relays a challenge so that its connection is authenticated under the honest peer's key and merged with that peer's half-open re-dial, then delivers the answer to the old connection's counter-challenge on it). monitor (from the honest nodes' outgoing messages the harness knows which challenge each node issued on which connection): every handshake completion (interface event or status change to Connected under key K) must coincide with the delivery, on that connection, of a response whose signature verifies for K over a challenge issued by this node on this connection that was not accepted before, and K must not be the node's own key (a reflected signature was not produced by the remote side); a delivery that completes nothing leaves status, key and key->connection entry of every other authenticated connection unchanged. evaluations = operations. non-trivial = sequence with a completed handshake side and a delivery that completed nothing; distinct by case digest".into();
+    ctx.rule = "two honest nodes built from the real routing threads (A connects to B) and an attacker with three connections of its own (two to B, one to A) who also sits on the honest link; generated sequences of 4..14 operations: connect, deliver in order, drop, reorder, replay any observed message to any endpoint (incl. redirect across connections and reflection), attacker responses signed with its own key over the right / another connection's / a random challenge with ok / unset / incompatible core version (other major, other minor, a minor/patch pair that collides under byte packing, extreme patch levels) claiming its own or the honest peer's key, attacker challenges (random, or another endpoint's challenge: signing-oracle attempt), unsolicited traffic, dropped connections that are dialled again under the same connection index (plus two directed families: the honest link drops at every point of the handshake, is re-dialled, and every message seen so far is replayed to either end; the attacker reflects a node's own first messages back to it on the attacker's connection; the attacker relays a challenge so that its connection is authenticated under the honest peer's key and merged with that peer's half-open re-dial, then delivers the answer to the old connection's counter-challenge on it). monitor (from the honest nodes' outgoing messages the harness knows which challenge each node issued on which connection): every handshake completion (interface event or status change to Connected under key K) must coincide with the delivery, on that connection, of a response whose signature verifies for K over a challenge issued by this node on this connection that was not accepted before, the response must state a core version of the node's own major.minor line, and K must not be the node's own key (a reflected signature was not produced by the remote side); a delivery that completes nothing leaves status, key and key->connection entry of every other authenticated connection unchanged. evaluations = operations. non-trivial = sequence with a completed handshake side and a delivery that completed nothing; distinct by case digest".into();
     ctx.assumptions.push("The attacker cannot forge signatures. A live relay of the very challenge (K signs, in its own handshake, the challenge the victim issued to the attacker) satisfies the statement's letter and is counted, not flagged.".into());
     // directed prefix: the honest handshake, in order, must complete on both sides
     let honest = Case { ops: vec![Op::Connect(0), Op::Deliver(1), Op::Deliver(0), Op::Deliver(1)] };
